@@ -9,7 +9,7 @@ ASSUMPTIONS = TRUSTED_BASE + [
     "both ensembles share one tis_set (REPEX_state.initiate_ensembles assigns the same dict), so maxlength0 == maxlength1",
     "old paths are valid in their ensembles and have at least one interior point (>= 3 frames); plain [0-] interfaces are (x, lambda0, lambda0)",
     "'swapping twice restores the sequences' needs deterministic reversible dynamics: a statement about the external engine, not decided here (the junction/first-frame clauses it rests on are)",
-    "quantis_swap_zero is not yet under contract (its threshold clause is listed as not covered in the evidence)",
+    "quantis_swap_zero: the energy rule is proved with exp as an uninterpreted positive function (equality of the rule's argument built from the four frames the docstring names and the two engines' betas); the completion of the two paths after the rule is executed symbolically but their validity is not stated",
 ]
 EXPLANATION = (
     "retis_swap_zero is executed symbolically on the real AST (plain, lambda_-1 and wire-fencing variants). On ACC the new [0-] path ends with the "
@@ -21,12 +21,15 @@ EXPLANATION = (
 
 def jobs(tier):
     js = [("e1", {"name": "retis_swap_zero", "registry": "contracts.tis_moves", "key": "retis_swap_zero", "clause": "junctions / validity / status / early reject", "cost": 60, "parallel": 14})]
+    js.append(("e1", {"name": "quantis_swap_zero", "registry": "contracts.tis_moves", "key": "quantis_swap_zero", "clause": "energy acceptance rule, status consistency, old paths untouched", "cost": 60, "parallel": 12}))
     js.append(("py", {"name": "native_crosscheck", "module": "props.C11", "fn": "native_crosscheck"}))
     return js
 
 
 def kf_tie_at_lambda0(w, native):
     """Order parameter exactly equal to lambda_0 on a junction frame: classification (<=, >=) and the engines' stop rule (<, >) disagree there."""
+    if "intf0" not in w:
+        return False
     lam0 = w["intf0"][2]
     vals = list(w["old0"]) + list(w["old1"]) + list(w["back"]) + list(w["forw"])
     only = all(("cross" in b or "end point" in b or "start" in b) for b in (native or {}).get("violations", ["x"]))
@@ -55,7 +58,22 @@ def _scenarios():
                                    "start_cond0": sc0, "back": bk, "forw": fw}
 
 
+def _qscenarios():
+    lam = 0.0
+    for beta0, beta1 in ((1.0, 1.0), (2.0, 0.5), (0.7, 3.0)):
+        for v_lo_lo, v_lo_hi, v_hi_hi, v_hi_lo in ((0.0, 0.0, 0.0, 0.0), (1.0, 0.4, 0.3, 1.1), (0.2, 1.5, 0.9, 0.1), (-0.5, 0.25, 2.0, 0.5)):
+            for u in (0.0, 0.05, 0.2347, 0.5, 0.75, 0.999):
+                for aa in (False, True):
+                    yield {"function": "quantis_swap_zero", "old0": [0.3, -0.4, -0.1, 0.2], "old1": [-0.2, 0.4, -0.1], "vpot0": [0.0, 0.0, v_lo_lo, 0.0], "vpot1": [v_hi_hi, 0.0, 0.0],
+                           "lam0": lam, "maxlength": 30, "one0": [0.3], "one1": [0.25], "v_one0": v_lo_hi, "v_one1": v_hi_lo, "back": [-0.3, -0.2, 0.4], "forw": [0.5, -0.3],
+                           "beta0": beta0, "beta1": beta1, "u": u, "accept_all": aa}
+
+
 def _run(w):
+    if w.get("function") == "quantis_swap_zero":
+        from vf.native_moves import run_quantis
+        bad, info = run_quantis(w)
+        return {"reproduced": bool(bad), "violations": bad, "info": info, "detail": bad[:3]}
     from vf.native_moves import run_swap
     bad, info = run_swap(w)
     return {"reproduced": bool(bad), "violations": bad, "info": info, "detail": bad[:3]}
@@ -63,7 +81,10 @@ def _run(w):
 
 def search(obname, limit=50000):
     known = None
-    for k, w in enumerate(_scenarios()):
+    import itertools
+    # only inputs of the function the obligation belongs to may serve as its failing input
+    src = _qscenarios() if obname.startswith("quantis") else (_scenarios() if obname.startswith("retis") else itertools.chain(_scenarios(), _qscenarios()))
+    for k, w in enumerate(src):
         r = _run(w)
         if r["reproduced"]:
             if any(c(w, r) for c in KNOWN_CLASSES):
@@ -81,7 +102,8 @@ def replay(obname, w):
 
 def native_crosscheck(spec, tier, seed):
     n, first_new, known_hits = 0, None, {}
-    for k, w in enumerate(_scenarios()):
+    import itertools
+    for k, w in enumerate(itertools.chain(_scenarios(), _qscenarios())):
         n += 1
         r = _run(w)
         if r["reproduced"]:
